@@ -114,6 +114,75 @@ prop("C17",
      undecided_subclauses=["'up to a few ulps' is proved in the stronger form 'unchanged' for inside points"])
 
 
+BOUNDED_NOTE = ("bounded stand-ins (replay/battery.py, replay/bounded.py) run the real code under CPython and are labelled bounded; "
+                "they are not counted as proved")
+
+prop("C01", level="other",
+     explanation="proved: apply_bounds returns a point inside the box for every method and every finite input (fp64 tier, C17 obligations tagged C01). "
+                 "bounded: every objective invocation / stored genome / seed / minimize() result inside the box over the scenario battery; the "
+                 "multiplying kernels (arithmetic crossover, uniform / Gaussian mutation, LHS scaling) on an adversarial floating-point grid.",
+     level_text="in-box step of bound repair proved bit-precisely; the chain 'every evaluation site receives an in-box genome' is checked by "
+                "the bounded stand-ins only (the numeric kernels are outside the verifier's array theory)",
+     level_note=BOUNDED_NOTE, assumptions=["cma / SciPy / qmc keep their iterates inside the bounds they are given"],
+     undecided_subclauses=["precondition in_box at every evaluation call site is not discharged deductively"],
+     bounded_parts=["battery::C01", "bounded::C01"])
+prop("C02", level="other",
+     explanation="proved: Individual.evaluate / evaluate_population (fitness is the objective value or the sentinel; evaluated individuals are not "
+                 "re-evaluated), the abstract deme contract's clause 'recorded history entries are kept' with its frame, refined by the EA/DE/SHADE "
+                 "demes. bounded: engines and population kernels on random objective tables; every stored individual against f(genome) and "
+                 "history immutability over the scenario battery (this is where D4/D7 were found).",
+     level_text="per-call contracts proved; array kernels and third-party optimisers covered by the bounded stand-ins", level_note=BOUNDED_NOTE,
+     assumptions=["deterministic objective"], undecided_subclauses=["buffer ownership of NumPy arrays (genomes are values in the row view)"],
+     bounded_parts=["battery::C02", "bounded::C02"])
+prop("C08", level="other",
+     explanation="proved: _do_sprout creates exactly one deme per candidate on the next level (loop hint h_level_lengths / invariant), run_metaepoch "
+                 "and run_sprout's hibernation loop do not change the structure, stopping is final. bounded: LevelLimit never lets through more "
+                 "candidates than free slots (exhaustive small candidate sets, several parents, ties, both directions); the number of active "
+                 "demes per level against the limit at every stop-condition consultation of the scenario battery.",
+     level_text="the counting bound of LevelLimit needs multiset lemmas (count under permutation / concatenation) that E-matching cannot "
+                "discharge: bounded stand-in", level_note=BOUNDED_NOTE, assumptions=[], undecided_subclauses=["the global invariant count_active(level) <= L is not mechanised"],
+     bounded_parts=["battery::C08", "bounded::C08"])
+prop("C09", level="exploration",
+     level_text="bounded: FarEnough / NBC_FarEnough on random sibling layouts (thresholds hit exactly, active / inactive siblings); centroid == mean "
+                "of the current population for every deme at every metaepoch boundary of the scenario battery", level_note=BOUNDED_NOTE,
+     assumptions=[], undecided_subclauses=[], bounded_parts=["battery::C09", "bounded::C09"])
+prop("C10", level="exploration",
+     level_text="bounded: DemeLimit / LevelLimit / SkipSameSprout / BestPerDeme / NBC_Generator on exhaustively enumerated small candidate sets "
+                "(sizes, orderings, ties, limits, occupancy, both directions)", level_note=BOUNDED_NOTE + "; the abstract filter contracts "
+                "(only removes) are stated in contracts/f10_sprout.py but the shipped filters are not proved against them",
+     assumptions=[], undecided_subclauses=["composition order of filters"], bounded_parts=["bounded::C10"])
+prop("C12", level="other",
+     explanation="proved: every population deme hands the previous generation to its engine (call-site obligation, shared with C11); engine "
+                 "contract: same size. bounded: DE / SHADE / SEA engines on random objective tables (best and k-th best never worse, size), "
+                 "generation sizes and elitism over the scenario battery.",
+     level_text="chaining proved, per-engine order statistics bounded", level_note=BOUNDED_NOTE, assumptions=[], undecided_subclauses=[],
+     bounded_parts=["battery::C12", "bounded::C12"])
+prop("C13", level="other",
+     explanation="proved: FunctionProblem.worse_than and every wrapper, Individual.__lt__, the deme / tree best accessors are direction-aware "
+                 "(order == worse(dir, a, b)). bounded: topk, tournament, DemeLimit, LevelLimit, NBC on mirrored inputs; twin seeded runs "
+                 "(f, maximize) vs (-f, minimize) for index-stable engine mixes in the scenario battery (found D6, D7, D8).",
+     level_text="per-decision obligations proved for the ordering core; selection kernels and whole-run form bounded", level_note=BOUNDED_NOTE,
+     assumptions=[], undecided_subclauses=["whole-run equality is a two-run hyperproperty: bounded twin runs only"],
+     bounded_parts=["battery::C13", "bounded::C13"])
+prop("C14", level="other",
+     explanation="proved: DemeTree.__init__ seeds both global generators with the configured seed before the root deme is built (call-site "
+                 "obligation on ghost generator state). bounded: two runs with the same seed from different prior generator states produce "
+                 "identical trees over the scenario battery. An effect scan lists every random / time / uuid source reachable from pyhms.",
+     level_text="effect discipline partly proved, run equality bounded", level_note=BOUNDED_NOTE,
+     assumptions=["NumPy / SciPy / cma are deterministic functions of their arguments and the global generator state"],
+     undecided_subclauses=["run equality itself", "independence of PYTHONHASHSEED (no set / hash iteration found by the scan)"],
+     bounded_parts=["battery::C14"])
+prop("C15", level="exploration",
+     level_text="bounded: NearestBetterClustering against an independent implementation of its definition on random populations (2-60 individuals, "
+                "1-8 dimensions, uniform / clustered / collinear / converged, tied fitness), plus permutation, translation / scaling and "
+                "mirror invariance", level_note=BOUNDED_NOTE + "; treelib and str-keyed node ids are outside the verifier",
+     assumptions=[], undecided_subclauses=[], bounded_parts=["bounded::C15"])
+prop("C20", level="exploration",
+     level_text="bounded: summary() / tree() parsed and compared with the tree, accessors called twice with state snapshots and objective "
+                "invocation counts before / after, over the scenario battery", level_note=BOUNDED_NOTE,
+     assumptions=[], undecided_subclauses=[], bounded_parts=["battery::C20"])
+
+
 def run_battery(pid, tier, seed, obligation="", ignore=""):
     drv = os.path.join(VERIF, "replay", "battery.py")
     try:
@@ -136,9 +205,43 @@ def run_battery(pid, tier, seed, obligation="", ignore=""):
     return dict(status="undecided", detail=("battery crashed: " + (p.stderr.strip().splitlines() or ["?"])[-1])[:300])
 
 
+BOUNDED = {"C01", "C02", "C08", "C09", "C10", "C12", "C13", "C15", "C17"}
+
+
+def run_bounded(pid, tier, seed):
+    drv = os.path.join(VERIF, "replay", "bounded.py")
+    try:
+        p = subprocess.run(["/venv/bin/python", drv, pid, "--seed", str(seed), "--tier", tier], capture_output=True, text=True,
+                           timeout=1500 if tier == "quick" else 7200, env=dict(os.environ, PYTHONPATH=REPO, PYVC_REPO=REPO))
+    except subprocess.TimeoutExpired:
+        return dict(status="undecided", detail="bounded harness timed out")
+    for ln in p.stdout.splitlines():
+        if ln.startswith("WITNESS "):
+            return dict(status="violation", witness=json.loads(ln[8:]))
+        if ln.startswith("SUMMARY "):
+            return dict(status="ok", summary=json.loads(ln[8:]))
+    return dict(status="undecided", detail=("bounded harness crashed: " + (p.stderr.strip().splitlines() or ["?"])[-1])[:300])
+
+
 def run_side_checks(pid, tier, seed):
     """bounded stand-ins, labelled as such in the evidence: the scenario battery on the real code (CPython)"""
     out = []
+    if pid in BOUNDED and os.environ.get("PYVC_NO_BATTERY") != "1":
+        res = run_bounded(pid, tier, seed)
+        rec = dict(name=f"bounded::{pid}", kind="bounded: the real functions on exhaustively enumerated small inputs / an adversarial "
+                   "floating-point grid, against predicates written from the property statement (replay/bounded.py)",
+                   bound="candidate sets of up to 4-5 individuals with fitness values from a 3-4 element set (all combinations, ties included), "
+                         "limits 1-3, 0-3 occupied slots, both directions; populations of up to 60 individuals in up to 8 dimensions "
+                         "(uniform / clustered / collinear / converged); boxes with decimal, tiny and huge ranges, faces, ulp neighbours",
+                   status=res["status"], known=[])
+        if res["status"] == "violation":
+            rec["witness"] = res["witness"]
+            rec["detail"] = res["witness"].get("what", "")
+        elif res["status"] == "ok":
+            rec["summary"] = res["summary"]
+        else:
+            rec["detail"] = res.get("detail", "")
+        out.append(rec)
     if pid in BATTERY and os.environ.get("PYVC_NO_BATTERY") != "1":
         kf = [f for f in json.load(open(os.path.join(VERIF, "known_findings.json"))).get("findings", [])
               if f["property"] == pid and f.get("check") == "battery"]
